@@ -71,6 +71,9 @@ def run(ctx):
     ctx.rule('R17.B', 'base model: token-type containment and token normal form behave as the protocol evaluation assumes', floor=1)
     RB.check_base_model(ctx, 'R17.B', parts=('contains', 'flags'))
     # the level protocol lives in one StatementSplitter object per script: the entry points must give the whole script to one run
+    from .. import rules_regions as RR
+    ctx.rule('R17.8', 'literals and comments inside a body are single tokens: a ";" or END inside them cannot reach the protocol (region rules of the lexer)', floor=10)
+    RR.check_regions(ctx, 'R17.8', quick=True)
     from .. import rules_stack as RK
     ctx.rule('R17.6', 'one splitter pass sees the whole script: pipeline shape of parse/parsestream/FilterStack.run', floor=10)
     RK.check_parse_pipeline(ctx, 'R17.6')
